@@ -293,6 +293,8 @@ def worker(job, outpath):
                 fn = getattr(gens, gen)
             for i in range(count):
                 case = fn(rng, **opts)
+                if gen != "g7" and rng.random() < 0.2:
+                    case = gens.rename_tensors(rng, case)
                 d = gens.to_yaml_dict(case)
                 for mode in modes:
                     dd, cc = d, case
